@@ -240,6 +240,10 @@ def _pfuncs(sp, rng):
     yield 'GroupL1Norm(1)', lambda: S.GroupL1Norm(sp, 1), ()
     yield 'IndicatorGroupL1UnitBall', lambda: S.IndicatorGroupL1UnitBall(sp), ('indicator',)
     yield 'IndicatorGroupL1UnitBall(inf)', lambda: S.IndicatorGroupL1UnitBall(sp, np.inf), ('indicator',)
+    # exponents for which no proximal is implemented today: if one is offered it has to be the proximal
+    yield 'IndicatorGroupL1UnitBall(1)', lambda: S.IndicatorGroupL1UnitBall(sp, 1), ('indicator',)
+    yield 'GroupL1Norm(inf)', lambda: S.GroupL1Norm(sp, np.inf), ()
+    yield 'GroupL1Norm(inf).convex_conj', lambda: S.GroupL1Norm(sp, np.inf).convex_conj, ('indicator',)
     yield 'Huber(pspace)', lambda: S.Huber(sp, 0.3), ('c1',)
     yield 'SeparableSum(L1Norm,L2NormSquared)', lambda: S.SeparableSum(S.L1Norm(sp[0]), S.L2NormSquared(sp[1])), ()
     yield 'SeparableSum(Huber,3.0*L1Norm)', lambda: S.SeparableSum(S.Huber(sp[0], 0.3), 3.0 * S.L1Norm(sp[1])), ()
